@@ -4,6 +4,7 @@ package main
 
 import (
 	"fmt"
+	"os"
 	"go/token"
 	"go/types"
 	"strings"
@@ -794,7 +795,6 @@ func ruleAccessInflight(c *Ctx) {
 	fn := p.Fn("(*server.Subscription).loadAccess")
 	fSlot := p.Field("server.Subscription.accessCallbacks")
 	flags := p.flagFields("server.Subscription.flags")
-	kFlag := p.ConstInt("server.flagAccessCalled", -1)
 	var accessMs []*types.Func
 	for _, q := range []string{"server.ConnSubscriber.Access", "server.wsConn.Access"} {
 		if m := p.Method(q); m != nil {
@@ -843,29 +843,50 @@ func ruleAccessInflight(c *Ctx) {
 			if isFlag(f) {
 				if b, ok := constBool(x.Val); ok {
 					if b {
-						return []Ev{{Kind: "flag-set"}}
+						return []Ev{{Kind: "flag-set:" + f.Name()}}
 					}
-					return []Ev{{Kind: "flag-clear"}}
+					return []Ev{{Kind: "flag-clear:" + f.Name()}}
 				}
-				if bo, ok := x.Val.(*ssa.BinOp); ok {
-					k, isC := constInt(bo.Y)
-					if !isC {
-						k, isC = constInt(bo.X)
+				if bo, ok := t.Resolve(fr, x.Val).V.(*ssa.BinOp); ok {
+					// the bit is named by a constant — also through a helper's parameter (setFlag(flag))
+					// the mask: a constant, or ^constant (`s.flags &= ^flag` with flag a helper's parameter)
+					mask := func(v ssa.Value) (int64, bool, bool) {
+						r := t.Resolve(fr, v)
+						if k, ok := constInt(r.V); ok {
+							return k, true, false
+						}
+						if u, ok := r.V.(*ssa.UnOp); ok && u.Op == token.XOR {
+							r2 := t.Resolve(r.Fr, u.X)
+							if k, ok := constInt(r2.V); ok {
+								return ^k, true, false
+							}
+							if _, isP := r2.V.(*ssa.Parameter); isP {
+								return 0, false, true
+							}
+						}
+						if _, isP := r.V.(*ssa.Parameter); isP {
+							return 0, false, true
+						}
+						return 0, false, false
 					}
-					if isC && kFlag > 0 {
+					k, isC, isParam := mask(bo.Y)
+					if !isC && !isParam {
+						k, isC, isParam = mask(bo.X)
+					}
+					if !isC && isParam {
+						// a flag helper seen on its own (setFlag(flag)): which bit, the caller's frame will tell
+						return []Ev{{Kind: "flag-op"}}
+					}
+					if isC {
 						switch bo.Op {
 						case token.OR:
-							if k&kFlag != 0 {
-								return []Ev{{Kind: "flag-set"}}
+							if k != 0 {
+								return []Ev{{Kind: fmt.Sprintf("flag-set:%d", k&0xff)}}
 							}
 						case token.AND:
-							if k&kFlag == 0 {
-								return []Ev{{Kind: "flag-clear"}}
-							}
+							return []Ev{{Kind: fmt.Sprintf("flag-clear:%d", (^k)&0xff)}}
 						case token.AND_NOT:
-							if k&kFlag != 0 {
-								return []Ev{{Kind: "flag-clear"}}
-							}
+							return []Ev{{Kind: fmt.Sprintf("flag-clear:%d", k&0xff)}}
 						}
 					}
 				}
@@ -886,23 +907,44 @@ func ruleAccessInflight(c *Ctx) {
 	}
 	sp.EdgeLimit = 1
 	tr := runTrace(p, fn, sp)
+	if os.Getenv("RV_DEBUG") != "" {
+		for _, path := range tr.Paths {
+			fmt.Fprintln(os.Stderr, "inflight:", tr.FmtPath(path))
+		}
+	}
 	bad := ""
 	nSend, nDrain := 0, 0
 	for _, path := range tr.Paths {
 		is := indexKind(path, "send")
+		raised := map[string]bool{}
 		if is >= 0 {
 			nSend++
 			if j := indexKind(path, "park"); j < 0 || j > is {
 				bad = "an access request is sent on a path that has not parked the caller's continuation: " + tr.FmtPath(path)
 			}
-			if j := indexKind(path, "flag-set"); j < 0 || j > is {
+			for _, e := range path[:is] {
+				if strings.HasPrefix(e.Kind, "flag-set:") {
+					raised[e.Kind[len("flag-set:"):]] = true
+				}
+			}
+			if len(raised) == 0 {
 				bad = "an access request is sent on a path that has not raised the in-flight flag: every further waiter sends a request of its own and is answered by whichever answer comes first: " + tr.FmtPath(path)
 			}
 		}
 		ih := indexKind(path, "hand-over")
 		if ih >= 0 {
 			nDrain++
-			if j := lastIndexKindBefore(path, "flag-clear", ih); j < 0 || j < is {
+			from := is
+			if from < 0 {
+				from = 0
+			}
+			lowered := false
+			for _, e := range path[from:ih] {
+				if strings.HasPrefix(e.Kind, "flag-clear:") && (len(raised) == 0 || raised[e.Kind[len("flag-clear:"):]]) {
+					lowered = true
+				}
+			}
+			if !lowered {
 				bad = "the answer is handed to the waiters with the in-flight flag still raised: the next check (after a reaccess, a token change or a reset) is parked behind a request that is no longer outstanding and never gets its answer: " + tr.FmtPath(path)
 			}
 			if j := lastIndexKindBefore(path, "slot-clear", ih); j < 0 || j < is {
